@@ -139,6 +139,16 @@ TrWHalve ==
   /\ gh' = [gh EXCEPT ![Ev.id] = [@ EXCEPT !.truth = [x \in DOMAIN @ |-> W!WHalf(@[x])]]]
   /\ On("C08") => Lm(Ev.tot) = obj'[Ev.id].total
 
+TrWDecay ==
+  /\ IsEv("WDecay")
+  /\ LET F == {<<Lm(Ev.f[i][1]), Lm(Ev.f[i][2])>> : i \in 1..Len(Ev.f)}
+         st == obj[Ev.id]  g == gh[Ev.id] IN
+     /\ WCovers(F, {st.tab[i] : i \in DOMAIN st.tab} \cup {st.total} \cup {g.truth[x] : x \in DOMAIN g.truth})
+     /\ WMonotone(F)
+     /\ obj' = [obj EXCEPT ![Ev.id] = DecayW(@, F)]
+     /\ gh' = [gh EXCEPT ![Ev.id] = [@ EXCEPT !.truth = [x \in DOMAIN @ |-> WApply(F, @[x])]]]
+  /\ On("C08") => Lm(Ev.tot) = obj'[Ev.id].total
+
 TrWChk ==
   /\ IsEv("WChk")
   /\ LET st == obj[Ev.id]  g == gh[Ev.id] IN
@@ -158,7 +168,7 @@ TrWChk ==
 TrPanic == IsEv("Panic") /\ FALSE /\ UNCHANGED <<obj, gh>>
 
 TNext == TrRun \/ TrNew \/ TrUpd \/ TrMerge \/ TrHalve \/ TrDecay \/ TrChk \/ TrRT \/ TrMergeTry
-         \/ TrWNew \/ TrWUpd \/ TrWMerge \/ TrWHalve \/ TrWChk \/ TrPanic
+         \/ TrWNew \/ TrWUpd \/ TrWMerge \/ TrWHalve \/ TrWDecay \/ TrWChk \/ TrPanic
 TSpec == TInit /\ [][TNext]_tvars
 
 Accepted ==
